@@ -29,7 +29,9 @@ import RModel.Gen.ExecFlags
   Four places exist in two variants, selected by the flags that translate/execflags.py reads from the source
   (RModel/Gen/ExecFlags.lean): in-place vs. temp+rename `History::save`, empty lock file fatal vs. stale, lock
   content write failure leaving vs. removing the file, in-place vs. temp+rename `apply_single_patch`, temp file
-  kept vs. removed when a step of the atomic replace fails.  The functions take the flag as a parameter
+  kept vs. removed when a step of the atomic replace fails.  (`ExecFlags.offsetsChecked` records that the edit loop
+  slices with `str::get`; the model uses `Edits.applyEdits = applyEditsG true`, and `C04.offsets_checked_flag` breaks
+  if the source stops checking.)  The functions take the flag as a parameter
   (`…F`), so theorems can speak about either variant.
   Not modelled: case-only renames (second probe file), `--commit`, created_directories, fsync.
 -/
